@@ -36,6 +36,7 @@ type xformWitness struct {
 	GotLen  uint64      `json:"got_len"`
 	Detail  string      `json:"detail"`
 	DstStep int         `json:"dst_step,omitempty"` // streaming decode: capacity of every destination buffer
+	WantFNV uint64      `json:"want_fnv,omitempty"` // FNV-1a of the whole expected output (want_hex holds only its head)
 }
 
 // refDec decodes with the Go reference decoders (self-check of the reference side); readers are reused.
@@ -195,7 +196,7 @@ func (e *env) codecJobs(variant string, width int, units []unit, pick func(i int
 					fail := func(clause, detail string) {
 						e.r.Violation(fmt.Sprintf("%s:%s:%s%s", c.Pkg, c.Class, clause, part), fmt.Sprintf("wuffs %s decoder on %s (%d bytes -> want %d bytes): %s", c.Pkg, c.Desc, len(data), len(want), detail),
 							xformWitness{Kind: "xform", Variant: variant, Pkg: c.Pkg, Quirks: c.Quirks, Desc: c.Desc, DataHex: hex.EncodeToString(clip(data, 1<<17)), WantHex: hex.EncodeToString(clip(want, 1<<12)), WantLen: len(want),
-								Status: o.Status, GotLen: o.OutLen, Detail: detail + " " + o.CrashLog, DstStep: sc.DstStep})
+								Status: o.Status, GotLen: o.OutLen, Detail: detail + " " + o.CrashLog, DstStep: sc.DstStep, WantFNV: fnv(want)})
 					}
 					switch {
 					case o.Crash != "":
